@@ -77,7 +77,8 @@ func init() {
 		return bCountByte(sv(a[0]), sub.Bytes[0])
 	})
 	// strings.Builder: the accumulated string lives in an aux cell attached to the Builder object
-	builderGet := func(m *M, b Value) (PtrV, StrV) {
+	builderGet := builderGetFn
+	_ = func(m *M, b Value) (PtrV, StrV) {
 		k := m.auxKeyOf(b, "strings.Builder")
 		id, ok := m.st.Aux[k]
 		if !ok {
@@ -495,7 +496,17 @@ func init() {
 	reg("fmt.Errorf", func(m *M, fn *ssa.Function, a []Value, r ssa.Value) Value {
 		return m.makeError(m.sprintf(sv(a[0]), m.sliceElems(a[1].(SliceV))))
 	})
-	reg("fmt.Println|fmt.Printf|fmt.Print|fmt.Fprintf|fmt.Fprintln|fmt.Fprint", nop)
+	reg("fmt.Println|fmt.Printf|fmt.Print|fmt.Fprintln|fmt.Fprint", nop)
+	reg("fmt.Fprintf", func(m *M, fn *ssa.Function, a []Value, r ssa.Value) Value {
+		// only writes into a *strings.Builder are modelled; any other writer is output (ignored)
+		if w, ok := a[0].(IfaceV); ok && w.T != nil && w.T.String() == "*strings.Builder" {
+			out := m.sprintf(sv(a[1]), m.sliceElems(a[2].(SliceV)))
+			p, cur := builderGetFn(m, w.V)
+			m.st.setObj(p.Obj, bConcat(cur, out))
+			return TupleV{smt.ZeroExt(64-lw, bLen(out)), IfaceV{}}
+		}
+		return zeroResults(fn)
+	})
 	reg("errors.New", func(m *M, fn *ssa.Function, a []Value, r ssa.Value) Value {
 		return m.makeError(sv(a[0]))
 	})
@@ -514,6 +525,25 @@ func init() {
 	reg("github.com/pkg/errors.New|github.com/pkg/errors.Errorf", func(m *M, fn *ssa.Function, a []Value, r ssa.Value) Value {
 		return m.opaqueError("pkg/errors error")
 	})
+}
+
+func builderGetFn(m *M, b Value) (PtrV, StrV) {
+	k := m.auxKeyOf(b, "strings.Builder")
+	id, ok := m.st.Aux[k]
+	if !ok {
+		id = m.st.alloc(strC(""), nil)
+		m.st.setAux(k, id)
+	}
+	return PtrV{Obj: id}, m.st.Heap[id].(StrV)
+}
+
+// hexDigit: ASCII hex digit of a 4-bit value held in the low nibble of an 8-bit term.
+func hexDigit(n *smt.Term, upper bool) *smt.Term {
+	base := uint64('a' - 10)
+	if upper {
+		base = 'A' - 10
+	}
+	return smt.Ite(smt.BVUlt(n, smt.BVC(8, 10)), smt.BVAdd(n, smt.BVC(8, '0')), smt.BVAdd(n, smt.BVC(8, base)))
 }
 
 func sqrtF(f float64) float64 {
@@ -633,6 +663,16 @@ func (m *M) sprintf(format StrV, args []Value) StrV {
 						} else {
 							out = m.strConcat(out, strC(fmt.Sprintf("%"+flags+string(verb), t.U)))
 						}
+						ai++
+						i = j
+						continue
+					}
+				}
+				if iv, ok := args[ai].(IfaceV); ok && (verb == 'X' || verb == 'x') && flags == "02" {
+					if t, ok := iv.V.(*smt.Term); ok && t.Sort.K == smt.KBV && t.Sort.W == 8 {
+						hi := smt.BVLshr(t, smt.BVC(8, 4))
+						lo := smt.BVAnd(t, smt.BVC(8, 15))
+						out = m.strConcat(out, strB([]*smt.Term{hexDigit(hi, verb == 'X'), hexDigit(lo, verb == 'X')}))
 						ai++
 						i = j
 						continue
